@@ -888,6 +888,8 @@ inductive Op
   | take
   | writeQ (slot : Nat) (bs : Bytes)
   | diagReq (slot : Nat)
+  /-- `get_mut(h).reset_address(a)` — at any point, also while a request to the old address is in flight (F14) -/
+  | resetAddr (slot : Nat) (a : UInt8)
 
 /-- What the last operation did (the observable result of the step). -/
 inductive Out
@@ -897,6 +899,8 @@ inductive Out
   /-- `transmit_telegram` returned `None` -/
   | idle
   | replied (i : Nat) (ev : Option PEvent)
+  /-- a reply for an address the peripheral at the cycle index no longer has: ignored (954a153) -/
+  | ignored
   | timedOut
   | taken (e : Events)
   | user
@@ -939,6 +943,10 @@ structure G where
   /-- peripheral events produced by the callbacks / handed out by `take_last_events`, oldest first -/
   produced : List HEvent := []
   taken : List HEvent := []
+  /-- sticky: `reset_address()` hit the peripheral whose request was in flight, or whose event was still
+  waiting in `last_events`.  The bookkeeping theorems of C03 / C08 / C14 are stated for histories
+  without that; no-panic, termination and the process-image clauses hold regardless. -/
+  tainted : Bool := false
 
 inductive Res3 (α : Type)
   | ok (a : α)
@@ -1014,6 +1022,11 @@ def replyAllowed (own a : UInt8) : Telegram → Bool
       (match h.fc with | .response _ _ => true | .request _ _ => false)
   | .token _ _ => false
 
+/-- `reset_address()` of `slot` meets a request in flight to that peripheral, or an uncollected event of it. -/
+def resetTaints (g : G) (slot : Nat) : Bool :=
+  (g.out.isSome && (match g.m.cur with | some (i, _) => i == slot | none => false)) ||
+  (match g.m.lastEvents.peripheral with | some he => he.index == slot | none => false)
+
 def gstep (fp : FdlParams) (g : G) : Op → Res3 G
   | .tx now hp =>
     if !timeOk g now then .refused else
@@ -1041,11 +1054,12 @@ def gstep (fp : FdlParams) (g : G) : Op → Res3 G
       let g1 : G := { g with m := m', out := none, collected := g.collected && !g.dirty, dirty := true }
       match g.m.cur with
       | some (i, p) =>
+        if p.address ≠ a then .ok { g with out := none, o := .ignored } else
         let p' := (m'.slots.getD i none).getD p
         let ev := m'.lastEvents.peripheral.map (·.ev)
         .ok { g1 with o := .replied i ev, sg := g.upd i (sgReply t p p'),
                       produced := g.produced ++ m'.lastEvents.peripheral.toList }
-      | none => .ok g1
+      | none => .ok { g with out := none, o := .ignored }
   | .timeout a =>
     if g.out ≠ some a then .refused else
     .ok { g with m := g.m.handleTimeout a, out := none, o := .timedOut }
@@ -1062,6 +1076,13 @@ def gstep (fp : FdlParams) (g : G) : Op → Res3 G
   | .diagReq slot =>
     match g.m.requestDiagnostics slot with
     | some m' => .ok { g with m := m', o := .user, sg := g.upd slot fun x => { x with diagReq := true } }
+    | none => .refused
+  | .resetAddr slot a =>
+    if a ≥ 128 then .refused else
+    match g.m.resetAddress slot a with
+    | some m' =>
+      .ok { g with m := m', o := .user, sg := g.upd slot (fun _ => {}),
+                   tainted := g.tainted || resetTaints g slot }
     | none => .refused
 
 def grun (fp : FdlParams) (g : G) : List Op → Res3 G
@@ -1084,7 +1105,7 @@ def timeB (t : Int) : Prop := -(2:Int)^62 < t ∧ t < (2:Int)^62
 
 structure Inv (fp : FdlParams) (g : G) : Prop where
   m : MInv fp g.m
-  out : ∀ a, g.out = some a → ∃ i p, g.m.cur = some (i, p) ∧ p.address = a
+  out : ∀ a, g.out = some a → ∃ i p, g.m.cur = some (i, p) ∧ (g.tainted = false → p.address = a)
   gcT : ∀ t, g.m.lastGc = some t → timeB t
 
 /-- Zero or more declines (`retry_count = 0`, nothing else) of the peripheral in one slot. -/
@@ -1392,7 +1413,10 @@ theorem reply_elim {fp : FdlParams} {g g' : G} (hI : Inv fp g) {a : UInt8} {t : 
       P { g with m := afterReply g.m index i p p' ev, out := none,
                  collected := g.collected && !g.dirty, dirty := true,
                  o := .replied i ev, sg := g.upd i (sgReply t p p'),
-                 produced := g.produced ++ (ev.map fun e => ({ index := i, address := p.address, ev := e } : HEvent)).toList }) :
+                 produced := g.produced ++ (ev.map fun e => ({ index := i, address := p.address, ev := e } : HEvent)).toList })
+    -- stale reply: the peripheral at the cycle index has another address by now (`reset_address()`)
+    (hstale : ∀ index i p, g.out = some a → g.m.cycle = .dx index → curSlot g.m.slots index = some (i, p) →
+      p.address ≠ a → g.tainted = true → P { g with out := none, o := .ignored }) :
     P g' := by
   simp only [gstep] at h
   by_cases hc : g.out ≠ some a ∨ replyAllowed fp.address a t = false
@@ -1415,6 +1439,22 @@ theorem reply_elim {fp : FdlParams} {g g' : G} (hI : Inv fp g) {a : UInt8} {t : 
       simp only at hcur
       have hi := (curSlot_spec hcur).2.2.1
       have hP := hI.m.pinv i p hi
+      have hcur' : g.m.cur = some (i, p) := by simp [Master.cur, hcy, hcur]
+      by_cases hpa' : ¬ p.address = a
+      · -- stale
+        have hne : a ≠ p.address := fun e => hpa' e.symm
+        have hrr : Master.receiveReply g.m a t = .ok g.m := by
+          unfold Master.receiveReply
+          simp only [hcy, getAtIndex_eq hI.m.len, hcur, ne_eq, hne, not_false_eq_true, if_true]
+        rw [hrr] at h
+        simp only [hcur', ne_eq, hpa', not_false_eq_true, if_true, Res3.ok.injEq] at h
+        subst h
+        have ht : g.tainted = true := by
+          cases hgt : g.tainted with
+          | true => rfl
+          | false => exact absurd (hpa hgt) hpa'
+        exact hstale index i p ho hcy hcur hpa' ht
+      have hpa : p.address = a := Decidable.of_not_not hpa'
       obtain ⟨p', ev, hrx, hspec⟩ := rx_spec hP (rxOk_of_allowed hal)
       have hl : (g.m.slots.set i (some p')).length ≤ 256 := by rw [List.length_set]; exact hI.m.len
       have hrr : Master.receiveReply g.m a t = .ok (afterReply g.m index i p p' ev) := by
@@ -1423,9 +1463,8 @@ theorem reply_elim {fp : FdlParams} {g g' : G} (hI : Inv fp g) {a : UInt8} {t : 
           nextCycle_eq hl, nextSlot_set hi, afterReply]
         cases nextSlot g.m.slots index <;> rfl
       rw [hrr] at h
-      have hcur' : g.m.cur = some (i, p) := by simp [Master.cur, hcy, hcur]
       have hl2 : i < g.m.slots.length := (curSlot_spec hcur).2.1
-      simp only [hcur', Res3.ok.injEq] at h
+      simp only [hcur', ne_eq, hpa, not_true_eq_false, if_false, Res3.ok.injEq] at h
       subst h
       have e1 : ((afterReply g.m index i p p' ev).slots.getD i none).getD p = p' := by
         simp [afterReply, List.getD_eq_getElem?_getD, hl2]
@@ -1510,16 +1549,34 @@ theorem gstep_ok {fp : FdlParams} (hfp : FpOk fp) {g : G} (hI : Inv fp g) (op : 
         rw [hcy] at hcur
         simp only at hcur
         have hi := (curSlot_spec hcur).2.2.1
-        obtain ⟨p', ev, hrx, _⟩ := rx_spec (hI.m.pinv i p hi) (rxOk_of_allowed hal)
-        have hl : (g.m.slots.set i (some p')).length ≤ 256 := by rw [List.length_set]; exact hI.m.len
-        have hrr : Master.receiveReply g.m a t = .ok (afterReply g.m index i p p' ev) := by
-          unfold Master.receiveReply
-          simp only [hcy, getAtIndex_eq hI.m.len, hcur, hpa, ne_eq, not_true_eq_false, if_false, hrx,
-            nextCycle_eq hl, nextSlot_set hi, afterReply]
-          cases nextSlot g.m.slots index <;> rfl
-        rw [hrr]
-        simp only
-        cases g.m.cur <;> simp
+        by_cases hpa' : ¬ p.address = a
+        · have hne : a ≠ p.address := fun e => hpa' e.symm
+          have hrr : Master.receiveReply g.m a t = .ok g.m := by
+            unfold Master.receiveReply
+            simp only [hcy, getAtIndex_eq hI.m.len, hcur, ne_eq, hne, not_false_eq_true, if_true]
+          rw [hrr]
+          simp only
+          cases g.m.cur with
+          | none => simp
+          | some ip => simp only; split <;> simp
+        · have hpa : p.address = a := Decidable.of_not_not hpa'
+          obtain ⟨p', ev, hrx, _⟩ := rx_spec (hI.m.pinv i p hi) (rxOk_of_allowed hal)
+          have hl : (g.m.slots.set i (some p')).length ≤ 256 := by rw [List.length_set]; exact hI.m.len
+          have hrr : Master.receiveReply g.m a t = .ok (afterReply g.m index i p p' ev) := by
+            unfold Master.receiveReply
+            simp only [hcy, getAtIndex_eq hI.m.len, hcur, hpa, ne_eq, not_true_eq_false, if_false, hrx,
+              nextCycle_eq hl, nextSlot_set hi, afterReply]
+            cases nextSlot g.m.slots index <;> rfl
+          rw [hrr]
+          simp only
+          cases g.m.cur with
+          | none => simp
+          | some ip => simp only; split <;> simp
+  | resetAddr slot a =>
+    simp only [gstep]
+    split
+    · simp
+    · cases g.m.resetAddress slot a <;> simp
   | timeout a =>
     simp only [gstep]
     split <;> simp
@@ -1543,7 +1600,8 @@ theorem cur_of_set {m : Master} {j : Nat} {p0 q : Peripheral} (hj : m.slots[j]? 
 
 theorem out_of_set {m : Master} {j : Nat} {p0 q : Peripheral} (hj : m.slots[j]? = some (some p0))
     (ha : q.address = p0.address) (m' : Master) (hs : m'.slots = m.slots.set j (some q)) (hc : m'.cycle = m.cycle)
-    {a : UInt8} (h : ∃ i p, m.cur = some (i, p) ∧ p.address = a) : ∃ i p, m'.cur = some (i, p) ∧ p.address = a := by
+    {a : UInt8} {T : Prop} (h : ∃ i p, m.cur = some (i, p) ∧ (T → p.address = a)) :
+    ∃ i p, m'.cur = some (i, p) ∧ (T → p.address = a) := by
   obtain ⟨i, p, h1, h2⟩ := h
   rw [cur_of_set hj m' hs hc, h1]
   simp only [Option.map_some]
@@ -1586,7 +1644,7 @@ theorem inv_step {fp : FdlParams} (hfp : FpOk fp) {g g' : G} (hI : Inv fp g) (op
       · intro a ha
         simp only [Option.some.injEq] at ha
         subst ha
-        exact ⟨i, _, cur_set hc _, (send_header hts).2.2.2.2⟩
+        exact ⟨i, _, cur_set hc _, fun _ => (send_header hts).2.2.2.2⟩
       · intro t ht; simp only [G.polled] at ht; rw [hD.gc] at ht; exact hI.gcT t ht
     · intro m1 index i p hD hM1 hcy hc hr _
       have hi := (curSlot_spec hc).2.2.1
@@ -1602,11 +1660,57 @@ theorem inv_step {fp : FdlParams} (hfp : FpOk fp) {g g' : G} (hI : Inv fp g) (op
         simp only [G.polled, this] at ht
         rw [hD.gc] at ht; exact hI.gcT t ht
   | reply a t =>
-    refine reply_elim hI h (Inv fp) ?_
-    intro index i p p' ev _ hcy hc hpa _ hspec
-    have hi := (curSlot_spec hc).2.2.1
-    have hq := rx_pinv hspec (hI.m.pinv i p hi)
-    exact ⟨minv_set (i := i) hI.m hq _ rfl rfl, (by intro a h; cases h), hI.gcT⟩
+    refine reply_elim hI h (Inv fp) ?_ ?_
+    · intro index i p p' ev _ hcy hc hpa _ hspec
+      have hi := (curSlot_spec hc).2.2.1
+      have hq := rx_pinv hspec (hI.m.pinv i p hi)
+      exact ⟨minv_set (i := i) hI.m hq _ rfl rfl, (by intro a h; cases h), hI.gcT⟩
+    · intro index i p _ _ _ _ _
+      exact ⟨hI.m, (by intro a h; cases h), hI.gcT⟩
+  | resetAddr slot a =>
+    simp only [gstep] at h
+    split at h
+    · cases h
+    · rename_i ha
+      cases hw : g.m.resetAddress slot a with
+      | none => rw [hw] at h; cases h
+      | some m' =>
+        rw [hw] at h
+        simp only [Res3.ok.injEq] at h; subst h
+        unfold Master.resetAddress Master.peripheral? at hw
+        cases hs : g.m.slots.getD slot none with
+        | none => rw [hs] at hw; cases hw
+        | some p =>
+          rw [hs] at hw
+          simp only [Option.some.injEq] at hw; subst hw
+          have hj : g.m.slots[slot]? = some (some p) := by
+            rw [List.getD_eq_getElem?_getD] at hs
+            cases hh : g.m.slots[slot]? with
+            | none => rw [hh] at hs; cases hs
+            | some x => rw [hh] at hs; simp only [Option.getD_some] at hs; rw [hs]
+          have hP := hI.m.pinv slot p hj
+          have hq : PInv fp (p.resetAddress a) :=
+            ⟨by simp [Peripheral.resetAddress], by simp [Peripheral.resetAddress], by simp [Peripheral.resetAddress],
+             by simp [Peripheral.resetAddress, Diag.ExtDiag.Valid], hP.prm, hP.cfg, hP.piq,
+             by simp only [Peripheral.resetAddress]; exact UInt8.not_le.mp ha⟩
+          refine ⟨minv_set (i := slot) hI.m hq _ rfl rfl, ?_, hI.gcT⟩
+          intro a' ha'
+          obtain ⟨i, p0, hc0, hp0⟩ := hI.out a' ha'
+          have hcs := cur_of_set hj { g.m with slots := g.m.slots.set slot (some (p.resetAddress a)) } rfl rfl
+          by_cases hij : i = slot
+          · subst hij
+            refine ⟨i, p.resetAddress a, by rw [hcs, hc0]; simp, ?_⟩
+            intro ht
+            -- the reset hit the peripheral in flight: the history is tainted
+            exfalso
+            simp only [Bool.or_eq_false_iff] at ht
+            have h2 := ht.2
+            have ho : g.out = some a' := ha'
+            simp [resetTaints, ho, hc0] at h2
+          · refine ⟨i, p0, by rw [hcs, hc0]; simp [hij], ?_⟩
+            intro ht
+            simp only [Bool.or_eq_false_iff] at ht
+            exact hp0 ht.1
   | timeout a =>
     simp only [gstep] at h
     split at h
@@ -1814,8 +1918,32 @@ theorem slot_of_set {m : Master} {i : Nat} {p q : Peripheral} (hi : m.slots[i]? 
     exact ⟨fun _ => by simp, fun _ => by simp, fun _ => by simp, fun h => absurd h.symm hij⟩
 
 
-/-- `reply_elim` as an existential statement. -/
-theorem reply_form {fp : FdlParams} {g g' : G} (hI : Inv fp g) {a : UInt8} {t : Telegram}
+/-- What a delivered reply does (`reply_elim`, first case) as a predicate on the successor state. -/
+def Delivered (fp : FdlParams) (g : G) (a : UInt8) (t : Telegram) (g' : G) : Prop :=
+  ∃ index i p p' ev, g.out = some a ∧ g.m.cycle = .dx index ∧ curSlot g.m.slots index = some (i, p) ∧
+    p.address = a ∧ replyAllowed fp.address a t = true ∧ RxSpec p t p' ev ∧
+    g' = { g with m := afterReply g.m index i p p' ev, out := none,
+                  collected := g.collected && !g.dirty, dirty := true,
+                  o := .replied i ev, sg := g.upd i (sgReply t p p'),
+                  produced := g.produced ++ (ev.map fun e => ({ index := i, address := p.address, ev := e } : HEvent)).toList }
+
+/-- A stale reply (the peripheral at the cycle index was given another address while its request was
+in flight): nothing but the contract automaton changes. -/
+def Stale (g : G) (a : UInt8) (g' : G) : Prop :=
+  ∃ index i p, g.out = some a ∧ g.m.cycle = .dx index ∧ curSlot g.m.slots index = some (i, p) ∧
+    p.address ≠ a ∧ g.tainted = true ∧ g' = { g with out := none, o := .ignored }
+
+/-- `reply_elim` as a disjunction. -/
+theorem reply_cases {fp : FdlParams} {g g' : G} (hI : Inv fp g) {a : UInt8} {t : Telegram}
+    (h : gstep fp g (.reply a t) = .ok g') : Delivered fp g a t g' ∨ Stale g a g' := by
+  refine reply_elim hI h (fun g' => Delivered fp g a t g' ∨ Stale g a g') ?_ ?_
+  · intro index i p p' ev h1 h2 h3 h4 h5 h6
+    exact Or.inl ⟨index, i, p, p', ev, h1, h2, h3, h4, h5, h6, rfl⟩
+  · intro index i p h1 h2 h3 h4 h5
+    exact Or.inr ⟨index, i, p, h1, h2, h3, h4, h5, rfl⟩
+
+/-- In a history without a reset of the peripheral in flight every reply is delivered. -/
+theorem reply_form {fp : FdlParams} {g g' : G} (hI : Inv fp g) (hu : g.tainted = false) {a : UInt8} {t : Telegram}
     (h : gstep fp g (.reply a t) = .ok g') :
     ∃ index i p p' ev, g.out = some a ∧ g.m.cycle = .dx index ∧ curSlot g.m.slots index = some (i, p) ∧
       p.address = a ∧ replyAllowed fp.address a t = true ∧ RxSpec p t p' ev ∧
@@ -1823,16 +1951,63 @@ theorem reply_form {fp : FdlParams} {g g' : G} (hI : Inv fp g) {a : UInt8} {t : 
                     collected := g.collected && !g.dirty, dirty := true,
                     o := .replied i ev, sg := g.upd i (sgReply t p p'),
                     produced := g.produced ++ (ev.map fun e => ({ index := i, address := p.address, ev := e } : HEvent)).toList } := by
-  refine reply_elim hI h (fun g' => ∃ index i p p' ev, g.out = some a ∧ g.m.cycle = .dx index ∧
-      curSlot g.m.slots index = some (i, p) ∧
-      p.address = a ∧ replyAllowed fp.address a t = true ∧ RxSpec p t p' ev ∧
-      g' = { g with m := afterReply g.m index i p p' ev, out := none,
-                    collected := g.collected && !g.dirty, dirty := true,
-                    o := .replied i ev, sg := g.upd i (sgReply t p p'),
-                    produced := g.produced ++ (ev.map fun e => ({ index := i, address := p.address, ev := e } : HEvent)).toList }) ?_
-  intro index i p p' ev h1 h2 h3 h4 h5 h6
-  exact ⟨index, i, p, p', ev, h1, h2, h3, h4, h5, h6, rfl⟩
+  rcases reply_cases hI h with hd | ⟨_, _, _, _, _, _, _, ht, _⟩
+  · exact hd
+  · rw [hu] at ht; cases ht
 
+/-- `tainted` is sticky. -/
+theorem tainted_mono {fp : FdlParams} {g g' : G} (op : Op) (h : gstep fp g op = .ok g')
+    (hu : g'.tainted = false) : g.tainted = false := by
+  cases hg : g.tainted with
+  | false => rfl
+  | true =>
+    exfalso
+    have : g'.tainted = true := by
+      cases op with
+      | tx now hp =>
+        simp only [gstep] at h
+        split at h
+        · cases h
+        · split at h
+          · cases h
+          · cases h
+          · split at h <;> (simp only [Res3.ok.injEq] at h; subst h; exact hg)
+          · split at h
+            · simp only [Res3.ok.injEq] at h; subst h; exact hg
+            · split at h <;> (simp only [Res3.ok.injEq] at h; subst h; exact hg)
+      | reply a t =>
+        simp only [gstep] at h
+        split at h
+        · cases h
+        · split at h
+          · cases h
+          · split at h
+            · split at h <;> (simp only [Res3.ok.injEq] at h; subst h; exact hg)
+            · simp only [Res3.ok.injEq] at h; subst h; exact hg
+      | timeout a =>
+        simp only [gstep] at h
+        split at h
+        · cases h
+        · simp only [Res3.ok.injEq] at h; subst h; exact hg
+      | take => simp only [gstep, Master.takeLastEvents, Res3.ok.injEq] at h; subst h; exact hg
+      | writeQ slot bs =>
+        simp only [gstep] at h
+        split at h
+        · simp only [Res3.ok.injEq] at h; subst h; exact hg
+        · cases h
+      | diagReq slot =>
+        simp only [gstep] at h
+        split at h
+        · simp only [Res3.ok.injEq] at h; subst h; exact hg
+        · cases h
+      | resetAddr slot a =>
+        simp only [gstep] at h
+        split at h
+        · cases h
+        · split at h
+          · simp only [Res3.ok.injEq] at h; subst h; simp [hg]
+          · cases h
+    rw [hu] at this; cases this
 
 /-- `DataExchanged` is produced exactly by an acceptable reply to an outstanding Data_Exchange request. -/
 theorem rx_event_iff {p p' : Peripheral} {t : Telegram} {ev : Option PEvent} (h : RxSpec p t p' ev) :
